@@ -198,6 +198,9 @@ func (c *bindCache) Evict(*v1.Pod, *podgroup_info.PodGroupInfo, eviction_info.Ev
 func (c *bindCache) TaskPipelined(*pod_info.PodInfo, string) {}
 
 type seqCase struct {
+	// NoFair: the fair share of the root queues is not observed at session open (tiny.go: sums of hundredths of a GPU
+	// over many pending pods are not exact in float64)
+	NoFair bool      `json:"noFairShareObservation,omitempty"`
 	Queues []qspec   `json:"queues"`
 	Init   []jspec   `json:"snapshot"` // the jobs of the snapshot that no step decides on; every task has its State
 	Steps  []seqStep `json:"steps"`
@@ -324,7 +327,7 @@ func runSeq(c seqCase) (term, label string, trace []stepObs, counts map[string]i
 	// pod contributes devices * mem/MinNodeGPUMemory that float64 does not represent exactly
 	fairObs := "None"
 	{
-		exact := true
+		exact := !c.NoFair
 		for _, job := range ssn.ClusterInfo.PodGroupInfos {
 			for _, p := range job.GetAllPodsMap() {
 				if p.Status == pod_status.Pending && p.IsMemoryRequest() && (p.ResReq.GpuMemory()*4)%ssn.ClusterInfo.MinNodeGPUMemory != 0 {
@@ -661,7 +664,7 @@ func (g *seqGen) snapshot() {
 
 // estCharge: roughly what a pod of this shape is charged with (only used to place the caps).
 func estCharge(t tspec) [3]float64 {
-	c := [3]float64{float64(t.CPUm), float64(t.MemMB) * 1e6, 0}
+	c := [3]float64{float64(t.CPUm), float64(t.MemMB)*1e6 + float64(t.MemB), 0}
 	dev := float64(t.N)
 	if dev == 0 {
 		dev = 1
@@ -1201,12 +1204,15 @@ func Run(dir string, seed uint64, n int, tier string) error {
 	}
 	// the ACTION stream: real sessions with the default plugin tiers on which the real actions run
 	runActions(out, root, n/10)
+	// TINY requests (tiny.go): after everything else, so that the indices of the older cases stay what they were
+	runTiny(out, root, n, emitDirect, emitSeq)
 	out.Stats["rule"] = "queue forests of depth 1-3 (<= 7 queues; limits and deserved quotas from {-1, 0, k/4 GPUs, k*500 mCPU, k*500 MB}); jobs of 1-3 tasks (whole, fractional x devices, gpu-memory x devices, MIG, DRA, CPU-only; dyadic quantities so that float64 arithmetic is exact). " +
 		"n = the tier's count: 40% direct cases (capacity_policy.New on hand-set Allocated/AllocatedNotPreemptible near the caps, 1/8 of them malformed: unknown job queue, dangling parent, caps below -1, queue named \"\"); 40% single-cycle sequences; 20% HISTORIES of 2 cycles (1/4 of them 3 cycles), each cycle its own session and its own case, so a run of n has about n*(1+0.2*1.25) cases (quick: 3000 -> ~3790 cases, ~615 histories, ~770 later-cycle sessions, about half of which open with a bind request in flight and nearly all of those contain a refusal, 60% an admission; see histories, later-cycle-sessions* counts), after a fixed corpus of 15 two-cycle histories (5 scenarios that take a leaf limit / an ancestor's limit over two sibling leaves / a deserved quota / a 2-GPU limit / a limit via 2-device fractions exactly to the cap in cycle 1 and retry the refused jobs in cycle 2, x the admitted pods seen as Binding, Bound, Running) and 9 boundary sequences. " +
 		"SNAPSHOT of every session (all sequences, every cycle of every history, the corpus): at least one pod in EACH of the 11 situations a queue's pod can be in when the snapshot is taken -- pending, gated, allocated (set by hand: getTaskStatus never returns it), binding (pending pod + BindRequest in flight), bound (nodeName, phase Pending), running, releasing on a node, releasing without node, succeeded, failed, unknown -- built by v1.Pod + BindRequest -> pod_info.NewTaskInfoWithBindRequest -> NodeInfo.AddTasksToNode; generated sessions: the 11 states in random order plus 0-3 more (binding/bound/running/allocated/pending/releasing) dealt over jobs of 1-3 pods, queue (deep ones preferred: depth 1/2/3 about 35/25/40%), preemptibility (50/50) and requests drawn per job, i.e. per quick run roughly 2600 pods in each state, each state with both preemptibilities and all three depths (snapshot-pod:<state>[:preemptible=..|:queue-depth=..] counts); three quarters of the finite caps are moved up by what the snapshot holds below them so that admissions and refusals keep their share (about 30% of the admit steps are admitted); corpus sessions carry the 11 states in an extra unlimited root queue. " +
 		"LATER CYCLES: the snapshot is derived from the pods as the previous session left them: pods whose bind was sent (Binding) are seen as binding (bind request still in flight; 1/3 of the histories), bound, running (the control), or per pod one of the three (mixed, 1/3); pods allocated but never committed or whose bind failed are pending again, evicted pods terminating or gone, running pods sometimes finished; jobs that are entirely pending again after a refusal are retried first (<= 3), then 2-5 decisions on new jobs. " +
 		"STEPS: 4-9 probe/admit/release decisions through the real session (proportion plugin's gates and handlers, one Statement per job: Allocate/Rollback, Evict; releases also hit snapshot pods in every holding status); in 2/3 of the single-cycle sequences and in all histories an admitted job is committed right away through the real Statement.Commit against a cache whose Bind fails for one chosen task (first / middle / last task of the job) or for none; after session open and after every step the plugin's per-queue Allocated and, independently, the set of pods whose status holds resources (Allocated/Pipelined/Binding/Bound/Running in the job's pod map) are observed; at session open also QueueFairShare of the root queues (the exported view on Request; skipped, fair-share-skipped count, when a pending gpu-memory pod's devices*memory/100 is not exact in float64); non-trivial = a direct case with at least one refusing gate, or a sequence with both an admitted and a refused job; distinct by full input. " +
 		"ACTION stream (n/10 sessions after a corpus of 16; quick: 316 sessions + ~1100 gate probes): real sessions with EVERY plugin of the default tiers opened on real NodeInfo / PodGroupInfo / QueueInfo objects (1-3 nodes of 2-8 GPUs, GPU memory 100 / 8000 / 40000 MiB; queue trees of depth 1-3: leaf at top level, leaf under a department, leaf under a mid-level queue under a department, sibling or cousin leaves; about 30/40/30%) on which the REAL actions run: allocate, then preempt / reclaim / consolidation (the scheduler's order or another). Jobs are gangs. The nodes are (nearly) full of running whole-GPU jobs: victims of priority 50 in the pending job's own queue (family preempt, 3/8), in a sibling / cousin queue that runs over its deserved quota (reclaim, 2/8), spread so that no node has room for the job's pods although the cluster has (consolidation, 1/8), or drawn at random (mixed, 2/8); pending jobs of 1-3 pods asking 1-4 WHOLE GPUs per pod, a fraction (0.25/0.5/0.75) on 2-3 devices (now and then 1), mixes of both, 1 in 14 pods a gpu-memory request (single- or multi-device: the known finding, met through the real preempt action too), priority 75, or 110 = non-preemptible in a third of the preempt sessions. The GPU limit of ONE queue of the pending job's chain (leaf, mid level or department) -- and for a non-preemptible job in 2/3 of the cases the deserved quota -- is placed at (held now - what the victims needed for the job to fit free below it) + k, k drawn from 0..N (N = GPUs of the whole job, quarter steps, whole numbers preferred) in 2/3 of the sessions and N or N+1 in the rest: the cap lies below, INSIDE and above the span between 'one more device' and 'all devices of the job'; the other caps of the chain are unlimited or generous. Recorded: every Bind / TaskPipelined / Evict that reaches the cache, in order, with the pod's AcceptedResource at that moment; a Statement.Commit starts at a cache call before which a handler fired or a gate ran; at its first call the plugin's per-queue Allocated and the pods whose status holds resources are observed, and again when each action returns. Per commit the case holds ORelease per Evict and one OAdmit per job placed (mode pipeline-only for the solver actions) carrying the verdict of the REAL capacity_policy.IsJobOverQueueCapacity / IsTaskAllocationOnNodeOverCapacity (what Session.IsJobOverQueueCapacityFn dispatches to) on the usage recomputed from the pods before the placement: snapshot pods in the allocated class minus the evicted plus what was bound / nominated before in this cycle; the allocate action's job-level refusals (seen through the wrapped Session.IsJobOverCapacityFns[0], verdict of the live session) are OAdmit .. AdmNo steps at their place between the commits. counts action-*: commits per action (quick: ~145 preempt, ~27 reclaim, ~16 consolidation, ~25 allocate), jobs placed per action (multi-device jobs: ~120 by preempt, ~19 by reclaim, ~16 by consolidation), victims nominated again elsewhere, action-solver-multi-device-job-refused-by-job-gate-only = solver simulations in which a multi-device job passes every node-level gate and is refused by the job-level gate alone (~80 per quick run: exactly the decisions that go wrong when the job-level gate does not run in pipeline-only mode), action-solver-nomination-without-any-job-gate-call (absent = 0 on the unchanged tree). GATE PROBES (origin action-probe): at the first refusing and first accepting call per action and job (<= 5 per session) of the wrapped job-level gate -- allocate action and solver simulations alike, i.e. also in the simulated state after a scenario's evictions -- the three real gates of the live session are evaluated and the usage is recomputed from the pods as they are at that moment; each is a direct case (OProbe on queues with that usage). Not generated in the action stream: DRA claims, MIG, running fraction pods. non-trivial (action): a session with at least one solver commit, keyed by family / queues / nodes / commits per action / nominations whose job-level verdict is a refusal; a probe keyed by action and verdicts. " +
-		"MIXED GPU MODELS (hetero.go; after the other action sessions: 13 fixed worlds, then n/15 generated sessions, quick: 200): clusters of 2-3 nodes (2-4 GPUs each) of 2-3 GPU models drawn from {500/100, 300/100, 400/100, 200/100, 400/200/100, 800/200, 40960/16384 and 81920/40960/16384 by label (floored to 40900/16300/81900 by the node), 40000/8000} MiB, in a third of the two-model clusters a second node of one model; in a quarter of the clusters the nodes of the biggest or second model carry a NoSchedule taint; queue tree of depth 1-2 (leaves a, b at top level or under department d); GPUs busy with running 1-GPU pods of queue b (the first = biggest node busy in 2/3 of the clusters, the others in 1/3: bin packing then ranks the nodes in varying orders, the big model first more often than not), in a quarter of the clusters a running 1-GPU pod of queue a (priority 50 or 110); 3-8 pending one-pod jobs (7/8 in queue a, priority 50/50/75/110/110, i.e. 2/5 non-preemptible): 70% gpu-memory requests on a single device asking 25/50/50/75/75/100 hundredths of a GPU of one model (3/4: the smallest model), 15% fractions 0.25/0.5/0.75, 15% one whole GPU; a gpu-memory pod may land only on nodes where its share is 0.25/0.5/0.75/1 (exact in float64): when that is every node it is left free half of the time, otherwise (and else) it is pinned to the nodes of its target model (2/3) or to a random non-empty subset of the exact nodes (1/3), by not tolerating the taint (when the allowed nodes are exactly the untainted ones, 2/3), by a node selector on the verif/gpu-model label (when they are exactly one model's nodes, 1/2) or on the node-name label (single node, 1/3), else by required node affinity (In on the node-name label); a third of the fraction / whole pods is pinned to one node; caps: at one level of a's chain the GPU limit (1/2 of the clusters), the deserved quota (1/3) or both at possibly different levels (1/6) = what the level holds + 1 or 2 (1 in 6: + 0.5), lowered below what a's pending pods ask in total in 2/3 of the cases where it would not bind; actions: allocate (2/3) or allocate, consolidation, reclaim, preempt (1/3). Fixed worlds: the world of seeded/C08-4's README (big = 2 GPUs x 500 with one GPU busy, small = 2 x 100, queue0 limit 1, two pods pinned to small; 75 units = 0.75 / 0.15 GPU instead of the README's 60 = 0.60 / 0.12, because 0.75 is exact in float64) with the pin as node affinity, node selector and taint, with 300/100 and 400/100 (half-GPU pods, three of them), each also with non-preemptible jobs against the deserved quota; the limit on the department over three models; an unpinned control; the 40960/16384 labels through all four actions. counts action-attempt-*: per placed pod how many candidates the attempt passed over (quick: ~300 pods after one, ~80 after two), how many of those were of another GPU model and with which live verdict; action-placed-gpu-memory-pod[-on-bigger-gpu-model]; action-placed-on-node-without-own-gate-call (absent = 0 on the unchanged tree: the pod went to a node for which the session's node-level gate was not the last one called for it)"
+		"MIXED GPU MODELS (hetero.go; after the other action sessions: 13 fixed worlds, then n/15 generated sessions, quick: 200): clusters of 2-3 nodes (2-4 GPUs each) of 2-3 GPU models drawn from {500/100, 300/100, 400/100, 200/100, 400/200/100, 800/200, 40960/16384 and 81920/40960/16384 by label (floored to 40900/16300/81900 by the node), 40000/8000} MiB, in a third of the two-model clusters a second node of one model; in a quarter of the clusters the nodes of the biggest or second model carry a NoSchedule taint; queue tree of depth 1-2 (leaves a, b at top level or under department d); GPUs busy with running 1-GPU pods of queue b (the first = biggest node busy in 2/3 of the clusters, the others in 1/3: bin packing then ranks the nodes in varying orders, the big model first more often than not), in a quarter of the clusters a running 1-GPU pod of queue a (priority 50 or 110); 3-8 pending one-pod jobs (7/8 in queue a, priority 50/50/75/110/110, i.e. 2/5 non-preemptible): 70% gpu-memory requests on a single device asking 25/50/50/75/75/100 hundredths of a GPU of one model (3/4: the smallest model), 15% fractions 0.25/0.5/0.75, 15% one whole GPU; a gpu-memory pod may land only on nodes where its share is 0.25/0.5/0.75/1 (exact in float64): when that is every node it is left free half of the time, otherwise (and else) it is pinned to the nodes of its target model (2/3) or to a random non-empty subset of the exact nodes (1/3), by not tolerating the taint (when the allowed nodes are exactly the untainted ones, 2/3), by a node selector on the verif/gpu-model label (when they are exactly one model's nodes, 1/2) or on the node-name label (single node, 1/3), else by required node affinity (In on the node-name label); a third of the fraction / whole pods is pinned to one node; caps: at one level of a's chain the GPU limit (1/2 of the clusters), the deserved quota (1/3) or both at possibly different levels (1/6) = what the level holds + 1 or 2 (1 in 6: + 0.5), lowered below what a's pending pods ask in total in 2/3 of the cases where it would not bind; actions: allocate (2/3) or allocate, consolidation, reclaim, preempt (1/3). Fixed worlds: the world of seeded/C08-4's README (big = 2 GPUs x 500 with one GPU busy, small = 2 x 100, queue0 limit 1, two pods pinned to small; 75 units = 0.75 / 0.15 GPU instead of the README's 60 = 0.60 / 0.12, because 0.75 is exact in float64) with the pin as node affinity, node selector and taint, with 300/100 and 400/100 (half-GPU pods, three of them), each also with non-preemptible jobs against the deserved quota; the limit on the department over three models; an unpinned control; the 40960/16384 labels through all four actions. counts action-attempt-*: per placed pod how many candidates the attempt passed over (quick: ~300 pods after one, ~80 after two), how many of those were of another GPU model and with which live verdict; action-placed-gpu-memory-pod[-on-bigger-gpu-model]; action-placed-on-node-without-own-gate-call (absent = 0 on the unchanged tree: the pod went to a node for which the session's node-level gate was not the last one called for it). " +
+		"TINY REQUESTS (tiny.go; after everything else): requests below the thresholds of ResourceRequirements.IsEmpty in every resource at once: a 0.01 GPU fraction (2/5-1/2 of the pods), milli-CPUs from {0, 0, 1, 3, 5, 5, 9}, memory from {0, 0, 1 B, 999999 B, 1 MB, 1 MiB, 5 MiB, 9 MiB}; caps from CPU {0, 0, 5, 10, 12, 20}m / memory {0, 0, 1, 2, 10, 20} MB at 3 of 10 places and GPU {0, 0.01, 0.02, 0.02} at 4 of 10 places of a genTree forest, as limit and as deserved quota, every root with GPU limit 0.02 (3/5), 0.01 or 0; n/20 direct cases (Allocated / AllocatedNotPreemptible within -10..+5m, -9 MiB..+1 MB of the cap, GPU 0 / 0.01 / 0.02; job of one tiny pod, 1 in 4 of two); 5 fixed sessions (the four README scenarios of seeded/C08-5 + a memory / CPU boundary chain) and n/30 generated ones (0-3 tiny pods already running / binding / bound, then 8-14 decisions on one-pod jobs concentrated on two queues, a third of the sessions with a run of non-preemptible attempts in one queue = elastic growth, 1 in 4 admissions committed, 1 in 12 with a failing bind); 6 fixed action sessions (README scenarios through the real allocate action, the elastic one as a PodGroup with minMember 1; scenario 1 through all four actions; an elastic workload of 1-byte pods against a memory limit 0 on the department) and n/60 generated ones (one node, tree of depth 1-3 with leaves a, b, 5-10 one-pod jobs and in half of them an elastic PodGroup of 3-6 pods, priority 50 / 75 / 110; a quarter runs all four actions)"
 	return out.Flush()
 }
